@@ -28,7 +28,8 @@ pub enum Case {
         original: String,
         batches: Vec<Vec<Edit>>,
         /// what the buffer object went through before: bit 0 = a longer text of other character widths with an
-        /// expanding and a deleting batch, built; bit 1 = a batch rejected because the text would exceed 65,535 bytes
+        /// expanding and a deleting batch, built; bit 1 = a batch rejected because the text would exceed 65,535 bytes;
+        /// bit 2 = every batch is first attempted with an edit function that fails after recording the edits
         #[serde(default)]
         age: u8,
     },
@@ -196,7 +197,7 @@ impl Property for C08 {
         let dp = DicParams::small();
         let w = (world(dp, CfgParams::full()), vec(pieces_long(tier.pick(10, 30)), 1..=3)).prop_map(|((dic, cfg), texts)| Case::World { dic, cfg, texts });
         let edit = (any::<u16>(), any::<u16>(), edit_string(), 0u8..4).prop_map(|(skip, len, with, api)| Edit { skip, len, with, api });
-        let e = (vec(pool_char(), 1..=tier.pick(24, 40)).prop_map(|v| v.into_iter().collect::<String>()), vec(vec(edit, 1..=6), 1..=4), prop_oneof![2 => Just(0u8), 1 => 1u8..4])
+        let e = (vec(pool_char(), 1..=tier.pick(24, 40)).prop_map(|v| v.into_iter().collect::<String>()), vec(vec(edit, 1..=6), 1..=4), prop_oneof![2 => Just(0u8), 1 => 1u8..8])
             .prop_map(|(original, batches, age)| Case::Edits { original, batches, age });
         prop_oneof![1 => w, 3 => e].boxed()
     }
@@ -227,6 +228,9 @@ impl Property for C08 {
                 let mut out = sudachi::prelude::MorphemeList::empty(&dict);
                 for t in texts {
                     let text = render_pieces(&keys, t);
+                    if f7_guard(&mut rep, dic, cfg, &text, ctx.strict) {
+                        continue;
+                    }
                     let chars: Vec<char> = text.chars().collect();
                     let norm = normalized_text(&dict, &text).ok();
                     for mode in MODES {
@@ -328,6 +332,28 @@ impl Property for C08 {
                     let (next, edits) = apply_model(&tracked, batch);
                     if next.is_empty() || edits.is_empty() {
                         continue;
+                    }
+                    if age & 4 != 0 {
+                        // the same edits in a batch whose edit function fails after recording them: the batch counts
+                        // as not applied (the map is unchanged, later batches are not affected)
+                        let r = buf.with_editor(|_b, mut ed| {
+                            for (range, with, _api) in edits.iter() {
+                                ed.replace_ref(range.clone(), with.as_str());
+                            }
+                            if edits.is_empty() {
+                                Ok(ed)
+                            } else {
+                                Err(sudachi::error::SudachiError::NoOOVPluginProvided)
+                            }
+                        });
+                        if r.is_ok() {
+                            rep.fail("refused-batch-accepted", format!("batch {}: the edit function returned an error but with_editor reports success", bi));
+                            return rep;
+                        }
+                        rep.class("edits:refused batch before a real one");
+                        if !Self::check_map(&mut rep, &buf, &tracked, original, &format!("after the refused attempt of batch {}", bi)) {
+                            return rep;
+                        }
                     }
                     let r = buf.with_editor(|_b, mut ed| {
                         for (range, with, api) in edits.iter() {
